@@ -520,8 +520,9 @@ func (sm *shardManagerImpl) UnregisterShard(clientShardID history.ClusterShardID
 		// Update metrics after local shards change
 		sm.mutex.Unlock()
 
+		// The entry was removed above while holding the lock and after checking its timestamp. Do not remove by key
+		// again here: a successor may have registered the shard since the lock was released.
 		vfYield("unregister.window")
-		sm.removeLocalShard(clientShardID)
 		sm.broadcastShardChange("unregister", clientShardID)
 
 		// Trigger memberlist metadata update to propagate NodeMeta to other nodes
@@ -1058,14 +1059,6 @@ func (sm *shardManagerImpl) addLocalShard(shard history.ClusterShardID) time.Tim
 	sm.localShards[key] = ShardInfo{ID: shard, Created: now}
 
 	return now
-}
-
-func (sm *shardManagerImpl) removeLocalShard(shard history.ClusterShardID) {
-	sm.mutex.Lock()
-	defer sm.mutex.Unlock()
-
-	key := ClusterShardIDtoShortString(shard)
-	delete(sm.localShards, key)
 }
 
 // RegisterActiveReceiver registers an active receiver for watermark propagation
